@@ -80,6 +80,13 @@ func (g *gen) simpleLexer(lexable bool) {
 	def.Rules = append(def.Rules, &LexRule{Kind: RFrag, Expr: &LexExpr{Op: LClass, Ranges: [][2]rune{{' ', ' '}, {'\t', '\t'}, {'\n', '\n'}, {'\r', '\r'}}, Card: CPlus}, Actions: []LexAction{{Kind: ADiscard}}})
 	g.s.Modes = []*LexMode{def}
 	g.s.LexFamily = "simple"
+	// The grammar families pick tokens by position (opener, closer, separator
+	// ...): shuffle which name plays which role, so that the alphabetical order
+	// of symbol names is unrelated to their roles.
+	for i := len(g.toks) - 1; i > 0; i-- {
+		j := g.pick(i + 1)
+		g.toks[i], g.toks[j] = g.toks[j], g.toks[i]
+	}
 }
 
 func (g *gen) perm(n int) []int {
